@@ -129,6 +129,7 @@ type c12SpecUser struct {
 	inc, epoch int
 	disabled   bool
 	pw         uint64
+	pwCost     uint64 // bcrypt cost the hash of pw was generated with
 }
 type c12SpecSess struct {
 	user       uint64
@@ -145,15 +146,11 @@ type c12Hash struct {
 }
 
 type c12World struct {
-	t     *testing.T
-	rec   *vRecorder
-	ctx   context.Context
-	auth  *Authenticator // BcryptCost 4, bcryptCostChanged false: never re-hashes
-	auth5 *Authenticator // BcryptCost 5 (used for CreateUser / SetPassword at cost 5)
-	// observeOnly: a history outside the hypotheses of the theorems (two bcrypt costs in use at once): the
-	// correspondence is still checked, monitor verdicts are only counted
-	observeOnly        bool
-	observed           int
+	t                  *testing.T
+	rec                *vRecorder
+	ctx                context.Context
+	auth               *Authenticator // BcryptCost 4, bcryptCostChanged false: never re-hashes
+	auth5              *Authenticator // BcryptCost 5 (used for CreateUser / SetPassword at cost 5)
 	loginNo            uint64
 	prefix             string
 	capN               int
@@ -211,10 +208,6 @@ func c12Fail(rec *vRecorder, monitor, sig string, input any, detail string) {
 	}
 }
 func (w *c12World) fail(monitor, sig, detail string) {
-	if w.observeOnly {
-		w.observed++
-		return
-	}
 	h := w.history()
 	if w.pending != "" {
 		h = append(h, w.pending+" => <the failing call>")
@@ -280,7 +273,7 @@ func (w *c12World) doCreateUser(u, p, c uint64) {
 		return
 	}
 	su := w.specUser(u)
-	su.exists, su.disabled, su.pw = true, false, p
+	su.exists, su.disabled, su.pw, su.pwCost = true, false, p, c
 	su.inc++
 	su.epoch++
 	w.noteHash(u, p, c)
@@ -332,7 +325,7 @@ func (w *c12World) doSetPassword(u, p, c uint64) {
 		return
 	}
 	su := w.specUser(u)
-	su.pw = p
+	su.pw, su.pwCost = p, c
 	su.epoch++
 	w.noteHash(u, p, c)
 	w.emit(op, "ODone", desc)
@@ -613,9 +606,21 @@ func (w *c12World) doLoginRehash(u, p uint64, inter [][]c12Op) {
 	}
 	suAtRead := *w.specUser(u)
 	attempt, lastMismatch := 0, false
+	// the Save attempt that lost the CAS race is followed by the reload and the callback on the reloaded copy, whose
+	// password comparison (repaired code) may insert into / evict from the verified-password cache: which entry was
+	// evicted is known when the next attempt starts (or the login returns) and is filled into that RehashSave then
+	reloadIdx, reloadEv := -1, func() string { return "None" }
+	reloadNo := uint64(0)
+	settleReload := func() {
+		if reloadIdx >= 0 {
+			w.ops[reloadIdx] = fmt.Sprintf("RehashSave %d %d %s", a, reloadNo, reloadEv())
+			reloadIdx = -1
+		}
+	}
 	hs := &c12CasHookStore{DataStore: w.auth.datastore, match: w.auth.DocIDForUser(w.name(u))}
 	hs.before = func() {
 		settle()
+		settleReload()
 		k := attempt
 		attempt++
 		if k < len(inter) {
@@ -632,13 +637,17 @@ func (w *c12World) doLoginRehash(u, p uint64, inter [][]c12Op) {
 			w.unexpected("Save(rehash)", err)
 		}
 		lastMismatch = !wrote && !gone
-		w.emit(fmt.Sprintf("RehashSave %d %d", a, w.salt), "ORehash "+cqBool(wrote), fmt.Sprintf("  rehash#%d: CAS Save attempt %d", a, attempt))
+		w.emit(fmt.Sprintf("RehashSave %d %d None", a, w.salt), "ORehash "+cqBool(wrote), fmt.Sprintf("  rehash#%d: CAS Save attempt %d", a, attempt))
 		if !wrote {
 			w.rec.Err("rehash-cas-mismatch")
+			if lastMismatch {
+				reloadIdx, reloadNo, reloadEv = len(w.ops)-1, w.salt, w.evBegin()
+			}
 			return
 		}
 		w.rec.Err("rehash-written")
 		su := w.specUser(u)
+		overwrittenCost := su.pwCost
 		su.epoch++ // SetPassword rotates the session UUID
 		w.noteHash(u, p, 5)
 		// rehash_preserves_credentials on the implementation: the document just written must still verify the
@@ -654,18 +663,29 @@ func (w *c12World) doLoginRehash(u, p uint64, inter [][]c12Op) {
 			}
 		}
 		if !su.exists || !ok {
-			w.fail("rehash_preserves_credentials", "stale-password-reinstated-by-rehash",
-				fmt.Sprintf("the re-hash of login #%d (password pw%d presented) overwrote the credential of u%d: the current password pw%d no longer verifies against the stored hash", a, p, u, su.pw))
+			// the callback re-applied to the reloaded user re-hashed although the reloaded hash no longer verifies the
+			// password presented.  Two shapes: the reloaded hash has ANOTHER cost than the configured one (a node still
+			// hashing with the old cost changed the password: the callback before its repair checks nothing else), or
+			// it has the configured cost (the cost check itself is gone / was evaluated on a stale copy)
+			sig := "stale-password-reinstated-by-rehash"
+			if su.exists && overwrittenCost != 5 {
+				sig = "stale-password-reinstated-by-rehash-mixed-cost"
+			}
+			w.fail("rehash_preserves_credentials", sig,
+				fmt.Sprintf("the re-hash of login #%d (password pw%d presented) overwrote the credential of u%d (hash of cost %d): the current password pw%d no longer verifies against the stored hash", a, p, u, overwrittenCost, su.pw))
+			return
 		}
+		su.pwCost = 5
 	}
 	usr, err := c12Auth5On(w.auth, hs).AuthenticateUser(w.name(u), c12Pw(p))
 	if err != nil {
 		w.unexpected("AuthenticateUser", err)
 	}
 	settle()
+	settleReload()
 	if lastMismatch { // the last attempt lost the race: the reload found no user, or the callback cancelled
 		w.salt++
-		w.emit(fmt.Sprintf("RehashSave %d %d", a, w.salt), "ORehash false", fmt.Sprintf("  rehash#%d: reload, nothing to do", a))
+		w.emit(fmt.Sprintf("RehashSave %d %d None", a, w.salt), "ORehash false", fmt.Sprintf("  rehash#%d: reload, nothing to do", a))
 	}
 	w.retried = w.retried || attempt > 1
 	who := w.judgePassword(desc, u, p, usr, suAtRead)
@@ -840,12 +860,7 @@ func (w *c12World) apply(o c12Op) {
 }
 
 func c12Run(t *testing.T, rec *vRecorder, a *Authenticator, stream, kind string, capN int, ops []c12Op) *c12World {
-	return c12RunObs(t, rec, a, stream, kind, capN, ops, false)
-}
-
-func c12RunObs(t *testing.T, rec *vRecorder, a *Authenticator, stream, kind string, capN int, ops []c12Op, observeOnly bool) *c12World {
 	w := c12NewWorld(t, rec, a, capN)
-	w.observeOnly = observeOnly
 	for _, o := range ops {
 		w.apply(o)
 	}
@@ -923,6 +938,31 @@ func (s *c12CbsStore) Delete(ctx context.Context, k string) error {
 	return s.DataStore.Delete(ctx, k)
 }
 
+// ---------- the REST stream ----------
+// It drives rest/handler.go checkPublicAuth and rest/session_api.go through rest.NewRestTester.  Package rest imports
+// package auth, so that code cannot live in package auth: it is in verif_c12_rest_test.go, package auth_test (the
+// external test package of this directory, part of the same test binary), which registers itself here.
+type VC12Rec struct {
+	rec *vRecorder
+	rnd *vRand
+}
+
+func (r *VC12Rec) Case(stream, kind, coq string, desc any, nontrivial bool) {
+	r.rec.Case(stream, kind, coq, desc, nontrivial)
+}
+func (r *VC12Rec) Fail(monitor, sig string, input any, detail string) {
+	c12Fail(r.rec, monitor, sig, input, detail)
+}
+func (r *VC12Rec) Err(k string)              { r.rec.Err(k) }
+func (r *VC12Rec) Size(k string)             { r.rec.Size(k) }
+func (r *VC12Rec) Extra(k string, v any)     { r.rec.Extra(k, v) }
+func (r *VC12Rec) Intn(n int) int            { return r.rnd.Intn(n) }
+func (r *VC12Rec) Chance(pct int) bool       { return r.rnd.Chance(pct) }
+func (r *VC12Rec) Budget(q, th int) int      { return vBudget(q, th) }
+func (r *VC12Rec) Password(id uint64) string { return c12Pw(id) }
+
+var VC12RestStream func(t *testing.T, r *VC12Rec)
+
 func TestVerifC12(t *testing.T) {
 	rec := vNewRecorder(t, "C12", "C12.C12_Corr")
 	defer rec.Finish()
@@ -985,16 +1025,25 @@ func TestVerifC12(t *testing.T) {
 		c12Run(t, rec, a, "corpus", "history-cache1:"+k, 1, corpus[k])
 	}
 
-	// Two bcrypt costs in use AT ONCE (outside the hypothesis of C12_rehash_preserves_credentials; witness in
-	// C12_Refuted.v): the password change that wins the CAS race is hashed with cost 4, the re-hashing login wants
-	// cost 5, and the callback -- which re-checks only the cost of the reloaded document -- writes the old password
-	// back.  The model reproduces it (the correspondence is checked); the monitors' verdicts are only counted.
-	mixed := c12RunObs(t, rec, a, "corpus", "history:rehash-mixed-costs-observed", bigCap,
-		[]c12Op{cU(1, 1), lR(1, 1, []c12Op{sP(1, 5)}), aP(1, 1), aP(1, 5)}, true)
-	rec.Extra("rehash_mixed_cost_reinstates_old_password_observed", mixed.observed)
+	// Two bcrypt costs in use AT ONCE: the password change that wins the CAS race is hashed with cost 4, the re-hashing
+	// login wants cost 5.  The callback before its repair re-checked only the cost of the reloaded document and wrote
+	// the old password back (C12_Refuted.rehash_mixed_cost_reinstates_old_password_refuted; monitor signature
+	// stale-password-reinstated-by-rehash-mixed-cost); the repaired callback compares the password and cancels.
+	mixedCorpus := map[string][]c12Op{
+		"rehash-mixed-costs":             {cU(1, 1), lR(1, 1, []c12Op{sP(1, 5)}), aP(1, 1), aP(1, 5)},
+		"rehash-mixed-costs-same-pw":     {cU(1, 1), cS(1, 0, 1000, false), lR(1, 1, []c12Op{sP(1, 1)}), aP(1, 1), aP(1, 5), aC(0), lR(1, 1)},
+		"rehash-mixed-costs-two-retries": {cU(1, 1), lR(1, 1, []c12Op{sP(1, 1)}, []c12Op{sP(1, 5)}), aP(1, 1), aP(1, 5), lR(1, 5), aP(1, 5)},
+		"rehash-mixed-costs-recreate":    {cU(1, 1), lR(1, 1, []c12Op{dU(1), cU(1, 5)}), aP(1, 1), aP(1, 5)},
+		"rehash-mixed-costs-nonplain":    {cU(1, 6), lR(1, 7, []c12Op{sP(1, 6)}, []c12Op{sP(1, 7)}, []c12Op{sP(1, 1)}), aP(1, 6), aP(1, 1)},
+	}
+	for _, k := range []string{"rehash-mixed-costs", "rehash-mixed-costs-same-pw", "rehash-mixed-costs-two-retries", "rehash-mixed-costs-recreate", "rehash-mixed-costs-nonplain"} {
+		c12Run(t, rec, a, "corpus", "history:"+k, bigCap, mixedCorpus[k])
+		c12Run(t, rec, a, "corpus", "history-cache1:"+k, 1, mixedCorpus[k])
+	}
 
 	// ---------- (a2) re-hash: every pair of interleavings at the first two CAS Save attempts ----------
-	interAlpha := [][]c12Op{nil, {at5(sP(1, 5))}, {at5(sP(1, 1))}, {sD(1, true)}, {inv(1)}, {dU(1)}, {dU(1), at5(cU(1, 5))}, {cS(1, 1, 1000, false)}, {aP(1, 1)}}
+	interAlpha := [][]c12Op{nil, {at5(sP(1, 5))}, {at5(sP(1, 1))}, {sD(1, true)}, {inv(1)}, {dU(1)}, {dU(1), at5(cU(1, 5))}, {cS(1, 1, 1000, false)}, {aP(1, 1)},
+		{sP(1, 5)}, {sP(1, 1)}} // the last two: a node still hashing with the old cost (two costs in use at once)
 	nRe, nRetried := 0, 0
 	for _, i1 := range interAlpha {
 		for _, i2 := range interAlpha {
@@ -1057,11 +1106,11 @@ func TestVerifC12(t *testing.T) {
 		if !adversarial {
 			ops = append(ops, cU(1, pickPw(false)), cS(1, 0, 1000, rnd.Chance(30)))
 		}
-		// one configured cost at a time: until the first re-hashing login the nodes hash with cost 4 (rarely 5),
-		// from then on every node hashes with cost 5
+		// until the first re-hashing login the nodes hash with cost 4 (rarely 5), from then on mostly with cost 5 --
+		// but a node may still hash with the old cost (two costs in use at once)
 		changed := false
 		cost := func(o c12Op) c12Op {
-			if changed || rnd.Chance(15) {
+			if (changed && rnd.Chance(75)) || (!changed && rnd.Chance(15)) {
 				return at5(o)
 			}
 			return o
@@ -1072,13 +1121,13 @@ func TestVerifC12(t *testing.T) {
 				u := 1 + uint64(rnd.Intn(int(nu)))
 				switch rnd.Intn(7) {
 				case 0:
-					l = append(l, at5(sP(u, pickPw(adversarial))))
+					l = append(l, cost(sP(u, pickPw(adversarial))))
 				case 1:
 					l = append(l, sD(u, rnd.Chance(50)))
 				case 2:
 					l = append(l, dU(u))
 				case 3:
-					l = append(l, at5(cU(u, pickPw(adversarial))))
+					l = append(l, cost(cU(u, pickPw(adversarial))))
 				case 4:
 					l = append(l, inv(u))
 				case 5:
@@ -1151,6 +1200,14 @@ func TestVerifC12(t *testing.T) {
 			capN = 1 + rnd.Intn(2)
 		}
 		c12Run(t, rec, a, "random-adversarial", "random-adversarial", capN, gen(true))
+	}
+
+	// ---------- (c') REST histories through rest.NewRestTester (verif_c12_rest_test.go) ----------
+	cachedHashes = NewRandReplKeyCache(bigCap)
+	if VC12RestStream != nil {
+		VC12RestStream(t, &VC12Rec{rec: rec, rnd: rnd})
+	} else {
+		c12Fail(rec, "harness", "rest-stream-not-linked", nil, "verif_c12_rest_test.go (package auth_test) is not part of the test binary")
 	}
 
 	// ---------- (d) one-time sessions under concurrency (monitor only) ----------
